@@ -14,7 +14,8 @@ def _import_grid():
     try:
         import shapely  # noqa: F401
     except Exception:   # noqa
-        sys.path.append('/verif/stubs')
+        import os
+        sys.path.append(os.path.join(os.path.dirname(os.path.dirname(os.path.abspath(__file__))), 'stubs'))
     import numpy as np
     from AEIC.gridding.grid import Gridder, great_circle_distance
     return np, Gridder, great_circle_distance
